@@ -295,17 +295,46 @@ class Sem:
             return None
         fn = c.func
         name = fn.id if isinstance(fn, ast.Name) else fn.attr if isinstance(fn, ast.Attribute) and isinstance(fn.value, ast.Name) and fn.value.id in ("self", "cls") else None
-        if name is None or not name.startswith("_") or (name.startswith("__") and name.endswith("__")):
+        if name is None or (name.startswith("__") and name.endswith("__")):
+            return None
+        # methods: private ones only (a public method may be overridden); module-level functions of the same module: any name
+        if not name.startswith("_") and not isinstance(fn, ast.Name):
             return None
         m = self.fi.module
         cand = m.functions.get(name) if isinstance(fn, ast.Name) else None
+        if cand is not None and cand.node is self.node:
+            return None
         if cand is None and isinstance(fn, ast.Attribute) and self.fi.cls is not None:
             cand = self.idx.find_method(self.fi.cls, name)
+        if cand is None and isinstance(fn, ast.Name):
+            # a closure defined in the analysed function
+            for n_ in ast.walk(self.node):
+                if isinstance(n_, ast.FunctionDef) and n_ is not self.node and n_.name == name and not n_.decorator_list:
+                    cand = FunctionInfo(name=name, qualname=f"{self.fi.qualname}.<locals>.{name}", module=m, node=n_, cls=None, decorators=[])
+                    break
         if cand is None:
             return None
         body = [s for s in cand.node.body if not (isinstance(s, ast.Expr) and isinstance(s.value, ast.Constant) and isinstance(s.value.value, str))]
-        if len(body) != 1 or not isinstance(body[0], ast.Return) or body[0].value is None:
+        if not body or not isinstance(body[-1], ast.Return) or body[-1].value is None:
             return None
+        # `let` form: single-assignment temporaries followed by one return — folded into the returned expression
+        lets: List[Tuple[str, ast.AST]] = []
+        for st_ in body[:-1]:
+            if not (isinstance(st_, ast.Assign) and len(st_.targets) == 1 and isinstance(st_.targets[0], ast.Name)):
+                return None
+            lets.append((st_.targets[0].id, st_.value))
+        if lets:
+            names_ = [n_ for n_, _ in lets]
+            stored = [n_.id for st_ in body for n_ in ast.walk(st_) if isinstance(n_, ast.Name) and isinstance(n_.ctx, (ast.Store, ast.Del))]
+            mutated_ = {b_.id for st_ in body for n_ in ast.walk(st_) if isinstance(n_, ast.Subscript) and isinstance(n_.ctx, (ast.Store, ast.Del))
+                        for b_ in [n_.value] if isinstance(b_, ast.Name)}
+            calls_mut = {c_.func.value.id for st_ in body for c_ in ast.walk(st_) if isinstance(c_, ast.Call) and isinstance(c_.func, ast.Attribute)
+                         and isinstance(c_.func.value, ast.Name) and c_.func.attr in ("append", "extend", "insert", "sort", "update", "add", "pop", "remove", "clear", "fill")}
+            if len(set(names_)) != len(names_) or sorted(stored) != sorted(names_) or (set(names_) | set(cand.params)) & (mutated_ | calls_mut) \
+                    or any(n_ in cand.params for n_ in names_):
+                return None
+            if any(isinstance(n_, (ast.Lambda, ast.Yield, ast.YieldFrom, ast.NamedExpr)) for st_ in body for n_ in ast.walk(st_)):
+                return None
         params = list(cand.params)
         if isinstance(fn, ast.Attribute) and params and params[0] in ("self", "cls"):
             params = params[1:]
@@ -324,11 +353,14 @@ class Sem:
             sub.setdefault(pn, d_)
         if any(p_ not in sub for p_ in params):
             return None
-        out = self._subst(body[0].value, sub)
+        env_: Dict[str, ast.AST] = dict(sub)
+        for n_, v_ in lets:
+            env_[n_] = self._subst(v_, env_)
+        out = self._subst(body[-1].value, env_)
         if self.subst_consts:
             consts: Dict[str, ast.AST] = {}
-            for n in ast.walk(body[0].value):
-                if isinstance(n, ast.Name) and n.id not in sub and n.id not in consts:
+            for n in [n2 for root_ in [body[-1].value] + [v_ for _, v_ in lets] for n2 in ast.walk(root_)]:
+                if isinstance(n, ast.Name) and n.id not in env_ and n.id not in consts:
                     a = m.assigns.get(n.id)
                     if a and len(a) == 1 and isinstance(a[0], (ast.Constant, ast.Tuple)):
                         consts[n.id] = a[0]
